@@ -4,6 +4,7 @@ use crate::common::*;
 use rayon::prelude::*;
 use serde_json::{json, Value};
 
+pub mod agent_props;
 pub mod c01;
 pub mod c02;
 pub mod c03;
@@ -56,6 +57,12 @@ pub fn run(ctx: &Ctx) -> Report {
         "C16" => c16::run(ctx),
         "C17" => c17::run(ctx),
         "C19" => c19::run(ctx),
+        "C05" => agent_props::c05(ctx),
+        "C06" => agent_props::c06(ctx),
+        "C07" => agent_props::c07(ctx),
+        "C15" => agent_props::c15(ctx),
+        "C18" => agent_props::c18(ctx),
+        "C20" => agent_props::c20(ctx),
         other => {
             eprintln!("MACHINERY-FAILURE: property {other} has no check");
             std::process::exit(2)
